@@ -782,3 +782,53 @@ V("c05-7797-drops-algorithms-for-plain-headers", "C05", "break", "R05.13", "rfc7
 V("c04-sender-key-from-public-key", "C04", "break", "R04.9", "encrypt_json resolves the 1PU sender key from public_key",
   "jwe.py", "        if sender_key and not recipient.sender_key:\n            recipient.sender_key = _guess_sender_key(recipient, sender_key, True)\n        if not recipient.recipient_key:",
   "        if sender_key and not recipient.sender_key:\n            recipient.sender_key = _guess_sender_key(recipient, public_key, True)\n        if not recipient.recipient_key:")
+# ------------------------------------------------------------------------------------------------ rules added after the sixth seed batch
+V("c04-tag-aware-of-first-task", "C04", "break", "R04.12", "post_encrypt_recipients reads tag_aware from the first delayed recipient's algorithm",
+  "rfc7516/message.py", "    for alg, recipient in tasks:\n        if alg.tag_aware:", "    for alg, recipient in tasks:\n        if tasks[0][0].tag_aware:")
+V("c04-benign-tag-aware-local", "C04", "benign", "R04.12", "the trait is read into a local inside the loop",
+  "rfc7516/message.py", "    for alg, recipient in tasks:\n        if alg.tag_aware:", "    for alg, recipient in tasks:\n        aware = alg.tag_aware\n        if aware:")
+V("c04-direct-mode-of-other-alg", "C04", "break", "R04.12", "decrypt_recipient asks direct_mode of a freshly looked-up model instead of the recipient's algorithm",
+  "rfc7516/message.py", "            agreed_upon_key = alg.decrypt_agreed_upon_key_with_tag(enc, recipient, tag)", "            agreed_upon_key = enc.decrypt_agreed_upon_key_with_tag(enc, recipient, tag)  # type: ignore")
+V("c05-allow-list-from-header", "C05", "break", "R05.14", "jws.serialize_compact fills a missing allow-list from the header it is asked to sign",
+  "jws.py", "    if registry is None:\n        registry = construct_registry(algorithms)\n\n    registry.check_header(protected)\n    obj = CompactSignature(protected, to_bytes(payload))",
+  "    if registry is None:\n        if not algorithms and \"alg\" in protected:\n            algorithms = [protected[\"alg\"]]\n        registry = construct_registry(algorithms)\n\n    registry.check_header(protected)\n    obj = CompactSignature(protected, to_bytes(payload))")
+V("c01-benign-value-to-bytes-rebound", "C01", "benign", "R01.10", "deserialize_compact converts `value` in place before extracting",
+  "jws.py", "    obj = extract_compact(to_bytes(value))", "    value = to_bytes(value)\n    obj = extract_compact(value)")
+V("c07-json-b64-sniffed-from-text", "C07", "break", "R07.11", "rfc7797 _extract_json decides 'no b64' from the text of the serialization",
+  "rfc7797/json.py", "    headers = member.headers()\n    if \"b64\" not in headers:\n        return None\n\n    payload = to_bytes", "    headers = member.headers()\n    if \"b64\" not in str(value):\n        return None\n\n    payload = to_bytes")
+V("c07-pss-length-floor", "C07", "break", "R07.12", "PS* verify refuses signatures whose length is not key_size // 8",
+  "rfc7518/jws_algs.py", "        op_key = key.get_op_key(\"verify\")\n        try:\n            op_key.verify(sig, msg, self.padding, self.hash_alg())\n            return True\n        except InvalidSignature:\n            return False\n\n\nJWS_ALGORITHMS",
+  "        op_key = key.get_op_key(\"verify\")\n        if len(sig) != op_key.key_size // 8:\n            return False\n        try:\n            op_key.verify(sig, msg, self.padding, self.hash_alg())\n            return True\n        except InvalidSignature:\n            return False\n\n\nJWS_ALGORITHMS")
+V("c07-benign-pss-length-ceil", "C07", "benign", "R07.12", "PS* verify pre-checks the exact octet length k = (bits + 7) // 8",
+  "rfc7518/jws_algs.py", "        op_key = key.get_op_key(\"verify\")\n        try:\n            op_key.verify(sig, msg, self.padding, self.hash_alg())\n            return True\n        except InvalidSignature:\n            return False\n\n\nJWS_ALGORITHMS",
+  "        op_key = key.get_op_key(\"verify\")\n        if len(sig) != (op_key.key_size + 7) // 8:\n            return False\n        try:\n            op_key.verify(sig, msg, self.padding, self.hash_alg())\n            return True\n        except InvalidSignature:\n            return False\n\n\nJWS_ALGORITHMS")
+V("c12-okp-public-swapped-after-kid", "C12", "break", "R12.13", "OKPKey.generate_key builds a private key object and swaps in the public native key after ensure_kid",
+  "rfc8037/okp_key.py", "        if private:\n            key = cls(raw_key, raw_key, parameters)\n        else:\n            pub_key = raw_key.public_key()\n            key = cls(pub_key, pub_key, parameters)\n        if auto_kid:\n            key.ensure_kid()\n        return key",
+  "        key = cls(raw_key, raw_key, parameters)\n        if auto_kid:\n            key.ensure_kid()\n        if not private:\n            key._raw_value = key.original_value = raw_key.public_key()\n        return key")
+V("c13-keyset-as-dict-rewrites-kid", "C13", "break", "R13.10", "KeySet.as_dict stores the thumbprint as kid unconditionally",
+  "_keys.py", "            # trigger key to generate kid via thumbprint\n            key.ensure_kid()", "            # trigger key to generate kid via thumbprint\n            key.dict_value[\"kid\"] = key.thumbprint()")
+V("c13-benign-keyset-setdefault-kid", "C13", "benign", "R13.10", "KeySet.as_dict uses setdefault, which keeps a kid that is present",
+  "_keys.py", "            # trigger key to generate kid via thumbprint\n            key.ensure_kid()", "            # trigger key to generate kid via thumbprint\n            key.ensure_kid()\n            key.dict_value.setdefault(\"kid\", key.thumbprint())")
+V("c14-keyset-first-key-without-kid", "C14", "break", "R14.14", "KeySet.__init__ skips the first key",
+  "_keys.py", "        for key in keys:\n            key.ensure_kid()\n        self.keys = keys", "        for key in keys[1:]:\n            key.ensure_kid()\n        self.keys = keys")
+V("c14-benign-keyset-kid-test", "C14", "benign", "R14.14", "KeySet.__init__ tests the element's kid before calling ensure_kid",
+  "_keys.py", "        for key in keys:\n            key.ensure_kid()\n        self.keys = keys", "        for key in keys:\n            if not key.kid:\n                key.ensure_kid()\n        self.keys = keys")
+V("c15-crit-admits-itself", "C15", "break", "R15.9", "names listed in crit are added to the admitted header names",
+  "registry.py", "    allowed_keys = set(registry.keys())\n", "    allowed_keys = set(registry.keys()) | set(header.get(\"crit\") or [])\n")
+V("c15-jwe-protected-merged-last", "C15", "break", "R15.8", "Recipient.headers merges the protected header last (it now hides the other positions)",
+  "rfc7516/models.py", "        rv.update(self.__parent.protected)\n        if isinstance(self.__parent, BaseJSONEncryption) and self.__parent.unprotected:\n            rv.update(self.__parent.unprotected)\n        if self.header:\n            rv.update(self.header)\n        return rv",
+  "        if isinstance(self.__parent, BaseJSONEncryption) and self.__parent.unprotected:\n            rv.update(self.__parent.unprotected)\n        if self.header:\n            rv.update(self.header)\n        rv.update(self.__parent.protected)\n        return rv")
+V("c15-benign-jws-disjoint-refusal", "C15", "benign", "R15.8", "HeaderMember.headers refuses overlapping names (the repaired form: the known finding disappears)",
+  "rfc7515/model.py", "        if self.header:\n            rv.update(self.header)\n        return rv", "        if self.header:\n            if not rv.keys().isdisjoint(self.header):\n                raise ValueError(\"duplicate header parameter\")\n            rv.update(self.header)\n        return rv")
+V("c16-b64-crit-membership-untyped", "C16", "break", "E9", "_safe_b64_header tests membership in crit after a None check only",
+  "rfc7797/registry.py", "    if isinstance(crit, list) and \"b64\" in crit:", "    if crit is not None and \"b64\" in crit:")
+V("c18-p2c-small-constant", "C18", "break", "R18.2", "PBES2 records a default iteration count of 512",
+  "rfc7518/jwe_algs.py", "            p2c = self.DEFAULT_P2C\n            recipient.add_header(\"p2c\", p2c)", "            p2c = 512\n            recipient.add_header(\"p2c\", p2c)")
+V("c18-ec-generate-curve-rebound", "C18", "break", "R18.8", "ECKey.generate_key silently generates P-384 when P-521 is requested",
+  "rfc7518/ec_key.py", "        raw_key = cls.binding.generate_private_key(crv)\n", "        if crv == \"P-521\":\n            crv = \"P-384\"\n        raw_key = cls.binding.generate_private_key(crv)\n")
+V("c19-ec-import-x-y-swapped", "C19", "break", "R19.8", "EC JWK import hands y to the x slot and x to the y slot",
+  "rfc7518/ec_key.py", "            base64_to_int(obj[\"x\"]),\n            base64_to_int(obj[\"y\"]),\n            curve,\n        )\n        d = base64_to_int", "            base64_to_int(obj[\"y\"]),\n            base64_to_int(obj[\"x\"]),\n            curve,\n        )\n        d = base64_to_int")
+V("c19-benign-ec-import-keywords", "C19", "benign", "R19.8", "EC JWK import passes the numbers by keyword",
+  "rfc7518/ec_key.py", "            base64_to_int(obj[\"x\"]),\n            base64_to_int(obj[\"y\"]),\n            curve,\n        )\n        d = base64_to_int", "            x=base64_to_int(obj[\"x\"]),\n            y=base64_to_int(obj[\"y\"]),\n            curve=curve,\n        )\n        d = base64_to_int")
+V("c11-rsa-import-n-via-table", "C11", "break", "R11.17", "RSA public import decodes n with urlsafe_b64decode + int.from_bytes(little)",
+  "rfc7518/rsa_key.py", "        numbers = RSAPublicNumbers(base64_to_int(obj[\"e\"]), base64_to_int(obj[\"n\"]))\n        return numbers.public_key", "        numbers = RSAPublicNumbers(base64_to_int(obj[\"e\"]), int.from_bytes(urlsafe_b64decode(to_bytes(obj[\"n\"])), \"little\"))\n        return numbers.public_key")
